@@ -43,10 +43,22 @@ def dec_fin(d, acc, fl, td, bn, out):
         bodies.dec_mentries(d, acc, fl, out)
 
 
-def dec_items(d, cnt, in_class, out):
+def dec_items(d, cnt, in_class, out, tmpl=None):
     """decode [cnt] items; what follows a class's brace is flattened behind the class, as the parser delivers it"""
+    from harness.props import c01
     for _ in range(cnt):
         kind = d.n()
+        if kind == 10:
+            hs = []
+            for _h in range(d.n()):
+                lst, d.i = c01.dec_tparams(d.o, d.i + 1, d.o[d.i], d.names)
+                hs.append(tuple(lst))
+            sub = []
+            dec_items(d, 1, in_class, sub)
+            # the headers belong to the class / forward declaration (the first entry); trailing declarators get none
+            out.append(sub[0][:-1] + (tuple(hs),))
+            out.extend(sub[1:])
+            continue
         if kind == 0:
             acc = impl.TT[d.n()]
             bodies.dec_citem(d, acc, out)
@@ -54,10 +66,10 @@ def dec_items(d, cnt, in_class, out):
             bodies.dec_nitem(d, out)
         elif kind == 2:
             a = d.n()
-            out.append(('fwd', impl.TT[a] if a else None, dec_key(d), d.name(d.n()), None))
+            out.append(('fwd', impl.TT[a] if a else None, dec_key(d), d.name(d.n()), None, ()))
         elif kind == 7:
             a = d.n()
-            out.append(('fwd', impl.TT[a] if a else None, dec_key(d), d.name(d.n()), dec_pq(d)))
+            out.append(('fwd', impl.TT[a] if a else None, dec_key(d), d.name(d.n()), dec_pq(d), ()))
         elif kind == 8:
             a = d.n()
             acc = impl.TT[a] if a else None
@@ -104,7 +116,7 @@ def dec_items(d, cnt, in_class, out):
             bs = tuple((impl.TT[d.n()], d.name(d.n()), d.b(), d.b()) for _k in range(d.n()))
             members = []
             dec_items(d, d.n(), True, members)
-            out.append(('class', acc, key, d.name(bn), fi, ex, bs, members))
+            out.append(('class', acc, key, d.name(bn), fi, ex, bs, members, ()))
             dec_fin(d, acc, fl, td, bn, out)
 
 
@@ -259,18 +271,29 @@ def _pq(q):
     return (q.has_typename, tuple((q.classkey or '').split()), tuple(segs))
 
 
+def _tmpl(t):
+    from harness.props import c01
+    if t is None:
+        return ()
+    lst = t if isinstance(t, list) else [t]
+    for td in lst:
+        if td.raw_requires_pre is not None:
+            raise bodies.Other()
+    return tuple(tuple(c01._conv_tdecl(td)) for td in lst)
+
+
 def conv(items):
     out = []
     for it in items:
         kind, o = it[0], it[1]
         if kind == 'class':
             c = o
-            if c.template is not None or c.typename.classkey not in KEYS:
+            if c.typename.classkey not in KEYS:
                 raise bodies.Other()
             bs = []
             for b in c.bases:
                 bs.append((b.access, _cname(b.typename), b.virtual, b.param_pack))
-            out.append(('class', c.access, c.typename.classkey, _cname(c.typename), c.final, c.explicit, tuple(bs), conv(it[2])))
+            out.append(('class', c.access, c.typename.classkey, _cname(c.typename), c.final, c.explicit, tuple(bs), conv(it[2]), _tmpl(c.template)))
         elif kind == 'ns':
             if o.doxygen is not None:
                 raise bodies.Other()
@@ -280,9 +303,9 @@ def conv(items):
         elif kind == 'extern':
             out.append(('extern', o, conv(it[2])))
         elif kind == 'fwd':
-            if o.template is not None or not o.typename.classkey:
+            if not o.typename.classkey:
                 raise bodies.Other()
-            out.append(('fwd', o.access, o.typename.classkey, _cname(o.typename), None if o.enum_base is None else _pq(o.enum_base)))
+            out.append(('fwd', o.access, o.typename.classkey, _cname(o.typename), None if o.enum_base is None else _pq(o.enum_base), _tmpl(o.template)))
         elif kind == 'enum':
             if not o.typename.classkey:
                 raise bodies.Other()
@@ -333,6 +356,22 @@ def key_attr(rng):
     return list(rng.choice(KEY_ATTRS)) if rng.random() < 0.15 else []
 
 
+TMPL_PARAMS = [['typename', 'T'], ['class', 'U'], ['typename', '...', 'Ts'], ['Foo', 'N'], ['typename', 'V', '=', 'Bar'], ['typename'],
+               ['template', '<', 'typename', '>', 'class', 'TT'], ['Foo', '*', 'P'], ['class', 'W', '=', 'A', '<', 'B', '>']]
+
+
+def tmpl_headers(rng):
+    out = []
+    for _ in range(rng.choice([1, 1, 1, 2])):
+        ps = []
+        for i in range(rng.choice([0, 1, 1, 2, 3])):
+            if ps:
+                ps.append(',')
+            ps += rng.choice(TMPL_PARAMS)
+        out += ['template', '<'] + ps + ['>']
+    return out
+
+
 def gen_class(rng, depth, in_class, td=False):
     """tokens of one class statement (definition or forward declaration); returns (tokens, declarator budget, statements)"""
     from harness.props import c03, c01
@@ -343,8 +382,10 @@ def gen_class(rng, depth, in_class, td=False):
     anon = rng.random() < 0.25
     name = None if anon else rng.choice(CLS_NAMES)
     if not anon and not td and rng.random() < 0.12:
-        return pre[:0] + [key, name, ';'], 1, 1
+        return (tmpl_headers(rng) if rng.random() < 0.3 else []) + [key, name, ';'], 1, 1
     toks = pre + [key] + key_attr(rng) + ([] if anon else [name])
+    if not td and not pre and rng.random() < 0.2:
+        toks = tmpl_headers(rng) + toks
     if not anon and rng.random() < 0.15:
         toks += ['final']
     if not anon and rng.random() < 0.3:
